@@ -324,6 +324,16 @@ func delegateTarget(fn *ssa.Function) *ssa.Function {
 					passed = true
 				}
 			}
+			// … or put into the options value that is handed on (`Options{RandomFn: randomFnArg}`)
+			if !passed {
+				for _, ref := range an.Referrers(p) {
+					if st, isSt := ref.(*ssa.Store); isSt && st.Val == ssa.Value(p) {
+						if _, isFA := st.Addr.(*ssa.FieldAddr); isFA {
+							passed = true
+						}
+					}
+				}
+			}
 			if !passed {
 				return fn
 			}
